@@ -12,16 +12,19 @@ Definition zero_pos : pos := {| p_file := 0; p_line := 0; p_col := 0; p_off := 0
 
 (* AddOverconstraintConflict: nil path = the nil chain reversed (source first), non-nil path = the non-nil chain
    in order; the reported position is the Position() of the LAST reason of the non-nil chain *)
+(* a nil-path node also records the complete position of its reason's site (never printed; part of the grouping key) *)
+Definition with_site (n : node) (p : pos) : node :=
+  {| n_ppos := n_ppos n; n_cpos := n_cpos n; n_prepr := n_prepr n; n_crepr := n_crepr n; n_site := p |}.
 Definition over_conflict (id : nat) (nil_chain nonnil_chain : list reason) : conflict :=
   {| c_id := id;
      c_pos := match rev nonnil_chain with r :: _ => rs_pos r | [] => zero_pos end;
-     c_nil := rev (map rs_node nil_chain);
+     c_nil := rev (map (fun r => with_site (rs_node r) (rs_pos r)) nil_chain);
      c_nonnil := map rs_node nonnil_chain;
-     c_func := None; c_test := false |}.
+     c_func := None; c_test := false; c_src := zero_pos |}.
 
 (* AddSingleAssertionConflict: one non-nil node; reported at the consumer expression *)
-Definition single_conflict (id : nat) (consumer_expr_pos : pos) (n : node) : conflict :=
-  {| c_id := id; c_pos := consumer_expr_pos; c_nil := []; c_nonnil := [n]; c_func := None; c_test := false |}.
+Definition single_conflict (id : nat) (consumer_expr_pos : pos) (n : node) (src : pos) : conflict :=
+  {| c_id := id; c_pos := consumer_expr_pos; c_nil := []; c_nonnil := [n]; c_func := None; c_test := false; c_src := src |}.
 
 (* ---- Engine.toPos on a file that is not (really) in the file set: fake files ---- *)
 Open Scope Z_scope.
